@@ -105,6 +105,12 @@ func (m *fsmModel) step(op string) string {
 	panic(op)
 }
 
+// failingAcks: the adapter refuses its first acknowledgements (a backend hiccup); the lifecycle must not care
+func failingAcks(l *Ledger) *Ledger {
+	l.FailAck[1], l.FailAck[2], l.FailAck[3] = true, true, true
+	return l
+}
+
 func errClass(err error) string {
 	switch {
 	case err == nil:
@@ -170,16 +176,16 @@ func epFSM(c *RunCtx, cfg fsmCfg, seq []int, salt int) *Result {
 				q := w.BindPriorityQueue()
 				adders = append(adders, func(d int) bool { _, ok := q.Add(d, 0); return ok })
 			case QPers:
-				q := w.WithPersistentQueue(NewLedger(nil, false).Q())
+				q := w.WithPersistentQueue(failingAcks(NewLedger(nil, false)).Q())
 				adders = append(adders, func(d int) bool { return q.Add(d) })
 			case QPersPrio:
-				q := w.WithPersistentPriorityQueue(NewLedger(nil, true).PQ())
+				q := w.WithPersistentPriorityQueue(failingAcks(NewLedger(nil, true)).PQ())
 				adders = append(adders, func(d int) bool { return q.Add(d, 0) })
 			case QDist:
-				q := w.WithDistributedQueue(NewLedger(nil, false).Q())
+				q := w.WithDistributedQueue(failingAcks(NewLedger(nil, false)).Q())
 				adders = append(adders, func(d int) bool { return q.Add(d) })
 			case QDistPrio:
-				q := w.WithDistributedPriorityQueue(NewLedger(nil, true).PQ())
+				q := w.WithDistributedPriorityQueue(failingAcks(NewLedger(nil, true)).PQ())
 				adders = append(adders, func(d int) bool { return q.Add(d, 0) })
 			}
 		}
@@ -240,6 +246,9 @@ func epFSM(c *RunCtx, cfg fsmCfg, seq []int, salt int) *Result {
 				e.Fail("C14", "transition", fmt.Sprintf("state=%s,call=%s,got=%s,want=%s", before, op, got, m.state),
 					fmt.Sprintf("%s: after %s on a %s worker the status is %s, reference machine says %s", desc, op, before, got, m.state))
 				return
+			}
+			if cfg.Jobs && got == "Running" && (w.NumPending() != 0 || w.NumProcessing() != 0) {
+				e.Fail("C14", "running-but-not-processing", "after="+op, fmt.Sprintf("%s: after %s the worker reports Running and everything is quiescent, but pending=%d processing=%d", desc, op, w.NumPending(), w.NumProcessing()))
 			}
 			if w.IsRunning() != (got == "Running") || w.IsPaused() != (got == "Paused") || w.IsStopped() != (got == "Stopped") {
 				e.Fail("C14", "predicates", got, fmt.Sprintf("%s: Status=%s but IsRunning=%v IsPaused=%v IsStopped=%v", desc, got, w.IsRunning(), w.IsPaused(), w.IsStopped()))
